@@ -46,9 +46,20 @@ def hash_definition(func: Callable) -> str:
     # Prefer source code — most precise, captures comments and formatting
     try:
         source = inspect.getsource(func)
-        return hashlib.sha256(source.encode()).hexdigest()
     except (OSError, TypeError):
-        pass
+        source = None
+    if source is not None:
+        h = hashlib.sha256(source.encode())
+        # Functions returned by one factory share their source text: what they
+        # capture (closure cells) is part of the definition, as in the bytecode path
+        closure = getattr(func, "__closure__", None)
+        if closure:
+            for cell in closure:
+                try:
+                    h.update(repr(cell.cell_contents).encode())
+                except ValueError:
+                    h.update(b"<empty_cell>")
+        return h.hexdigest()
 
     # Bytecode fallback — for exec/eval/Jupyter-defined functions
     code = getattr(func, "__code__", None)
